@@ -35,6 +35,7 @@ type Bias struct {
 	Intercept  bool
 	LateRecv   bool // callers that start receiving only after the handler's burst (fault-free worlds only: the wait is on the handler)
 	EarlyRet   bool // handler may return before consuming everything (bounded, see genStream)
+	OKCoded    bool // some handler errors carry a gRPC status of their own whose code is OK
 	AllTopos   bool
 }
 
@@ -131,7 +132,7 @@ func drawMDSpell(g *rand.Rand, maxKeys int, spell map[string]string) map[string]
 var statusMsgs = []string{"", "boom", "Ünïcödé ✓ 失敗", strings.Repeat("long message ", 600)}
 
 func drawStatus(g *rand.Rand) *StatusSpec {
-	sp := &StatusSpec{ErrKind: g.IntN(6), Code: 1 + g.IntN(16), Msg: statusMsgs[g.IntN(len(statusMsgs))], Details: g.IntN(4)}
+	sp := &StatusSpec{ErrKind: g.IntN(5), Code: 1 + g.IntN(16), Msg: statusMsgs[g.IntN(len(statusMsgs))], Details: g.IntN(4)}
 	if sp.ErrKind >= 2 {
 		sp.Details = 0
 		if sp.Msg == "" {
@@ -426,6 +427,10 @@ func genMix(b Bias) func(g *rand.Rand, tier string) any {
 				}
 				if g.IntN(100) < b.Errors {
 					spec.HStatus = drawStatus(g)
+					if b.OKCoded && g.IntN(6) == 0 {
+						spec.HStatus.ErrKind = 5 // an error whose own gRPC status says OK (C03 only: no interceptor rewrites it)
+						spec.HStatus.Details = 0
+					}
 				}
 				if g.IntN(100) < b.Metadata {
 					addMetadataOps(g, spec)
@@ -530,7 +535,7 @@ func init() {
 		Register(&Family{Name: name, Props: props, New: func() any { return &MixParams{} }, Gen: genMix(b), Exec: execMix, ShrinkKeys: []string{"callers"}})
 	}
 	reg("mix.streams", []string{"C02", "C05", "C06"}, Bias{Streams: 90, Errors: 10, Metadata: 10, MaxMsgs: 200, MaxCalls: 32, AllTopos: true, LateRecv: true})
-	reg("mix.status", []string{"C03"}, Bias{Streams: 60, Errors: 75, Metadata: 5, MaxMsgs: 4, MaxCalls: 6})
+	reg("mix.status", []string{"C03"}, Bias{Streams: 60, Errors: 75, Metadata: 5, MaxMsgs: 4, MaxCalls: 6, OKCoded: true})
 	reg("mix.metadata", []string{"C04"}, Bias{Streams: 60, Errors: 25, Metadata: 100, MaxMsgs: 4, MaxCalls: 5})
 	reg("mix.early", []string{"C02", "C03", "C06", "C11"}, Bias{Streams: 90, Errors: 30, Metadata: 10, MaxMsgs: 6, MaxCalls: 6, EarlyRet: true})
 	reg("mix.side", []string{"C20"}, Bias{Streams: 55, Errors: 30, Metadata: 10, MaxMsgs: 4, MaxCalls: 6, Intercept: true})
